@@ -399,7 +399,22 @@ def parse_payload(m, cls, mid, pbf, P, validate=1):
                     envrot.taint(UBXReader.parse(f, msgmode=m, validate=validate, parsebitfield=pbf))
                 except Exception:  # noqa: BLE001 - the observed call below reports it
                     pass
-            msg = UBXReader.parse(f, msgmode=m, validate=validate, parsebitfield=pbf)
+            route = (len(P) + 3 * cls + mid) % 7
+            if route == 5 and P:
+                # the documented other way of parsing a payload: the constructor itself, parsebitfield given positionally
+                from pyubx2 import UBXMessage
+
+                msg = UBXMessage(bytes([cls]), bytes([mid]), envrot.mode_arg(m, 5), bool(pbf), payload=bytes(P))
+            elif route == 6:
+                # ... and the stream route: a reader opened with these options over a stream holding just this frame
+                import io
+
+                raw, msg = UBXReader(io.BytesIO(f), msgmode=m, validate=validate, parsebitfield=pbf, quitonerror=2).read()
+                if msg is None:
+                    return None, "none", f
+            else:
+                msg = UBXReader.parse(f, msgmode=m, validate=validate, parsebitfield=pbf)
+            msg = envrot.twin(msg, envrot.key(bytes(P), cls, mid, m))
     except Exception as ex:  # noqa: BLE001
         return None, classify_exc(ex), f
     return msg, "msg", f
